@@ -155,9 +155,15 @@ def normalise_pct(impl_text, model_text):
 
 
 def dmodel_outcome(o):
-    status, text, effects, crash = o
+    status, text, effects, crash, log = o
+    items = []
+    for x in log:
+        if len(x) == 1:
+            items.append(("side", x[0]))
+        else:
+            items.append(("file", x[0], points_text(x[1]), points_text(x[2]), x[3], bool(x[4]), bool(x[5]), x[6], x[7]))
     return {"status": status, "text": points_text(text), "effects": [(points_text(e[0]), bytes(e[1])) for e in effects if len(e) == 2],
-            "mkdirs": [points_text(e[0]) for e in effects if len(e) == 1], "crash": crash[0] if crash else None}
+            "mkdirs": [points_text(e[0]) for e in effects if len(e) == 1], "crash": crash[0] if crash else None, "log": items}
 
 
 def run_disk(ctx, is_fd, argv, cd, timeout=60):
@@ -165,6 +171,59 @@ def run_disk(ctx, is_fd, argv, cd, timeout=60):
     r["text"] = "".join(l + "\n" for l in r["lines"])
     r["mkdirs"] = [cd.rel(e[1]) for e in r.get("effects", []) if e[0] == "os.mkdir"]
     return r
+
+
+OK_Q = re.compile(r"^  (.*)\.\.\.(ok|ignored|too big)$")
+OK_V = re.compile(r"^  (.*?)  (\S+) +(\S+) *\.\.\.\.\.\.(?:too big|  *(\d+) Bytes?  *(\d+) blocks? ?)$")
+LIST_V = re.compile(r"^  (.{8})\.(.{3})  (\S+) +(\S+) +(\d+) Bytes? +(\d+) blocks? ?$")
+LIST_Q = re.compile(r"^  (.*)$")
+
+
+def parse_report(text, verbose, listing):
+    """the printed report as data: list of sides, each a list of (label, stored, size|None, blocks|None)"""
+    sides = []
+    cur = None
+    for line in text.split("\n"):
+        m = re.match(r"^Side (\d+)$", line)
+        if m:
+            cur = []
+            sides.append(cur)
+            continue
+        if line == "TOTAL":
+            cur = None
+            continue
+        if cur is None or line in ("---", "") or line.startswith("has into"):
+            continue
+        if listing:
+            if verbose:
+                m = LIST_V.match(line)
+                if m:
+                    cur.append((m.group(1).rstrip() + "." + m.group(2).rstrip(), True, int(m.group(5)), int(m.group(6))))
+            else:
+                m = LIST_Q.match(line)
+                if m:
+                    cur.append((m.group(1), True, None, None))
+        elif verbose:
+            m = OK_V.match(line)
+            if m:
+                cur.append((m.group(1).split(".")[0].rstrip() + "." + m.group(1).split(".", 1)[1].rstrip() if "." in m.group(1) else m.group(1), m.group(4) is not None,
+                            int(m.group(4)) if m.group(4) else None, int(m.group(5)) if m.group(5) else None))
+        else:
+            m = OK_Q.match(line)
+            if m and m.group(2) != "ignored":
+                cur.append((m.group(1), m.group(2) == "ok", None, None))
+    return sides
+
+
+def log_as_report(log, verbose):
+    sides = []
+    for it in log:
+        if it[0] == "side":
+            sides.append([])
+        elif sides:
+            _, side, name, ext, kind, ascii_, stored, size, blocks = it
+            sides[-1].append((name.rstrip() + "." + ext.rstrip(), stored, size if (verbose and stored) else None, blocks if (verbose and stored) else None))
+    return sides
 
 
 def compare_action(r, m, cd, after=None, what=""):
@@ -181,6 +240,13 @@ def compare_action(r, m, cd, after=None, what=""):
         il, ml = it.split("\n"), mt.split("\n")
         k = next((i for i in range(min(len(il), len(ml))) if il[i] != ml[i]), min(len(il), len(ml)))
         return {what + " stdout differs at line": k, "impl": il[k:k + 3], "model": ml[k:k + 3]}
+    if "log" in m:
+        listing = what.startswith("list")
+        verbose = ("Byte" in r["text"]) or ("block" in r["text"])
+        pr, lr = parse_report(r["text"], verbose, listing), log_as_report(m["log"], verbose)
+        if pr != lr:
+            k = next((i for i in range(min(len(pr), len(lr))) if pr[i] != lr[i]), min(len(pr), len(lr)))
+            return {what + " structured report differs on side": k, "printed": (pr[k] if k < len(pr) else None), "model log": (lr[k] if k < len(lr) else None)}
     mw = [cd.rel(p) for p, _ in m["effects"]]
     if mw != r["writes"]:
         return {what + " writes": r["writes"][:6], "model": mw[:6]}
